@@ -10,7 +10,7 @@ for d in ${@:-seeded/*}; do
   out=$(./seedrun.sh "$d/patch.diff" "$prop" 2>&1); rc=$(echo "$out" | grep -o 'exit=[0-9]*' | tail -1)
   nviol=$(echo "$out" | grep -c '^VIOLATION')
   case "$det" in
-    neutralised-by-fix|yes-on-pre-fix-tree) want="exit=0" ;;
+    neutralised-by-fix|yes-on-pre-fix-tree|not-a-violation-under-reading) want="exit=0" ;;
     *) want="exit=1" ;;
   esac
   status=ok; [ "$rc" = "$want" ] || { status=UNEXPECTED; fail=1; }
